@@ -129,12 +129,11 @@ def run(model: Model, rep, tier: str) -> None:
             r = Run(model, "BilinearForm", "_assemble", sizes, nthreads=nth,
                     schedule=sched, worker_raise_ok=True)
             if r.result is None:
-                what = [e[2] for e in r.events if e[0] == "thread-raised"]
                 rep.fail("C16-O4", F, "BilinearForm._assemble",
                          f"raises[{sizes['u']}x{sizes['v']},nthreads={nth}]",
-                         f"with nthreads={nth} a worker raises "
-                         f"({what[0][:80] if what else r.raised}) for sizes "
-                         f"the serial assembly handles", line)
+                         f"with nthreads={nth} the assembly raises "
+                         f"({str(r.raised)[:80]}) for sizes the serial "
+                         f"assembly handles", line)
                 continue
             blocks, _ = r.blocks(r.result[1])
             cons = f"[{tag},nthreads={nth}]" if sched == "eager" else \
